@@ -31,9 +31,9 @@ CHECKS = {
     "C08": dict(engine="netmc", category="model_checking", design_ref="DESIGN.md §4 C08",
                 technique="stateless exhaustive exploration of assume/pop/next histories; differential oracle against a fresh network asserting the same literals",
                 text="All assume/pop/next histories up to depth 5 (thorough 7) on five networks built to update the same bound / distance / "
-                     "domain repeatedly across levels; after each history all bounds, distances and domains must equal those of a fresh "
-                     "network in which only the currently true literals were asserted, and at root only root consequences may remain.",
-                note="Comparison is skipped (and counted) when the fresh network derives extra literals. lra.value() is not compared (history dependent by design)."),
+                     "domain repeatedly across levels, plus pure-SAT networks (every pair / triple of a 20-clause pool with two more clauses on the same watched literals); after each history all bounds, distances and domains must equal those of a fresh "
+                     "network in which only the currently true literals were asserted - and, for networks without LRA atoms, that fresh network must not derive any additional literal - and at root only root consequences may remain.",
+                note="For networks with LRA atoms the comparison is skipped (and counted) when the fresh network derives extra literals: LRA bound propagation is incomplete and order dependent. lra.value() is not compared (history dependent by design)."),
     "C09": dict(engine="netmc", category="model_checking", design_ref="DESIGN.md §4 C09",
                 technique="stateless exhaustive exploration of assert/negate/retract histories on lra_theory; Fourier-Motzkin reference with strictness",
                 text="All 3-atom networks from a pool of 32 (thorough 96) linear atoms over two reals (shared sub-expressions) and all 4-atom networks from a 12-atom pool over x, y, x-y, all "
@@ -50,14 +50,14 @@ CHECKS = {
                 technique="exhaustive enumeration of domain pairs + assume/pop/next/propagate histories on ov_theory; truth-table oracle",
                 text="Every pair of non-empty domains over 3 (thorough 4) values with one or two equality requests: truth table of the "
                      "database (exactly one value, every allowed value possible, equality <=> same value) and all histories up to depth 5 "
-                     "(domain reported = values not excluded; entailment oracle).",
-                note="The planner-side variant without the exactly-one clause (enforce_exct_one=false) is not covered here."),
+                     "(domain reported = values not excluded; entailment oracle); also variables created without the exactly-one clause (every pair of domains), variables derived from the value literals of another variable (every pair of injective value maps) and 5 (6) variables with equalities requested at every creation point.",
+                note="Object variables only through ov_theory's API; the planner-side use of these variables is judged by C17."),
     "C11": dict(engine="relmc", category="exploration", design_ref="DESIGN.md §4 C11",
                 technique="bounded exhaustive enumeration of relation requests x preludes x model grid on the real lra_theory; per grid point a complete search through the API decides whether the literal can be true/false",
                 text="Every relation between every pair of a 12-16 expression pool (cancelling, repeated, scaled, basic variables), as first "
                      "or second request after 10 kinds of root preludes (two of them with a slack variable whose tableau row has a constant term), is judged at every point of a 5x5 rational grid: the literal must "
                      "be satisfiable iff the relation holds there and refutable iff it does not; no grid solution may be lost and root "
-                     "bounds may not change by requesting.",
+                     "bounds - of x, y and of every slack variable that already exists - may not change by requesting, and no grid point excluded by the stated constraints may become assertable.",
                 note="Two real variables; grid values {-1,0,1/2,1,2}; relies on exact rational evaluation of the relation at the point."),
     "C12": dict(engine="relmc", category="exploration", design_ref="DESIGN.md §4 C12",
                 technique="bounded exhaustive enumeration of difference-expression requests and queries x states x model grid on idl_theory/rdl_theory",
